@@ -23,6 +23,32 @@ HDR = ("From Coq Require Import List ZArith NArith String Ascii Bool.\nImport Li
        "Require Import TL.Model.Iter TL.Model.IterEq.\n")
 
 
+def _ensure_built():
+    """Local workaround: lib.base_make hands coq_makefile an absolute project path, coqdep then writes absolute names into
+    .Makefile.C18.d and `make <relative target>` does not know that IterEq/IterLemmas/C18 need Iter.vo first.  Compile the
+    four files in dependency order (only when a .vo is missing or stale); base_make afterwards is a no-op or reports."""
+    import fcntl
+    order = ["theories/Model/Iter.v", "theories/Model/IterEq.v", "theories/Proofs/IterLemmas.v", "theories/Props/C18.v"]
+    with open(os.path.join(lib.COQ, ".lock"), "w") as lock:
+        fcntl.flock(lock, fcntl.LOCK_EX)
+        try:
+            stale = False
+            for f in order:
+                src, vo = os.path.join(lib.COQ, f), os.path.join(lib.COQ, f + "o")
+                stale = stale or not os.path.exists(vo) or os.path.getmtime(vo) < os.path.getmtime(src)
+                if stale:
+                    if os.path.exists(vo):
+                        os.unlink(vo)
+                    rc, _, _ = lib.sh(["coqc", "-q", "-Q", "theories", "TL", f], timeout=900, cwd=lib.COQ)
+                    if rc != 0:
+                        break
+        finally:
+            fcntl.flock(lock, fcntl.LOCK_UN)
+
+
+_ensure_built()
+
+
 # ----------------------------------------------------------------------------------
 # reflect: the class predicates the code consults, on a representative of every class
 # ----------------------------------------------------------------------------------
